@@ -120,7 +120,8 @@ M_Loop(s) ==
 M_DefeatLow(s) ==
   IF HopefulS(s) = {} THEN M_Loop(s)
   ELSE LET low == TrueMin(s.vote, HopefulS(s))
-           tied == {c \in HopefulS(s) : VGE(s.h, low + s.surplus, s.vote[c])}
+           margin == IF VGE(s.h, s.surplus, 0) THEN s.surplus ELSE 0      \* a negative surplus widens nothing (meek.py, repaired defect F22)
+           tied == {c \in HopefulS(s) : VGE(s.h, low + margin, s.vote[c])}
            lc == FirstInTieOrder(s, tied)
        IN IF Cardinality(tied) > 1 /\ ~s.flag
           THEN LET s1 == LogTie(s, "tie", "defeat", tied, lc) IN
